@@ -189,6 +189,7 @@ structure DState where
   pend1 : Option (List String) := none
   pend2 : Option (List String × St) := none
   gw    : List Write := []
+  r1    : String := ""      -- result of the first operation, reported with the second one's
 
 def monitor (pre : C14.Obs) (ws : List String) (i : Impl) : List String :=
   if !i.wellFormed then [] else
@@ -287,8 +288,10 @@ def step (d : DState) (opLine : String) (impl : String) : DState × StepOut :=
                { model := resStr o1.res ++ " " ++ resStr o2.res ++ " ; " ++ dump o2.st o1.writes,
                  fails := monitorGated d.pre ws i (directInFlight d.pend1 d.pend2) })
             else
-              ({ model := o1.st, pre := pre', pend2 := p2, gw := o1.writes },
-               { model := resStr o1.res ++ " parked ; " ++ dump o1.st (o1.writes ++ o2.writes.take 1),
+              -- the second operation holds the lock at a write of its own: the first one's result is
+              -- reported together with the second one's
+              ({ model := o1.st, pre := pre', pend2 := p2, gw := o1.writes, r1 := resStr o1.res },
+               { model := "parked ; " ++ dump o1.st (o1.writes ++ o2.writes.take 1),
                  fails := monitorGated d.pre ws i (directInFlight d.pend1 d.pend2) })
     | none, some (ws2, pre2) =>
       match lockedHalf pre2 ws2 (order.drop d.gw.length) with
@@ -296,7 +299,8 @@ def step (d : DState) (opLine : String) (impl : String) : DState × StepOut :=
       | some op2 =>
         let o2 := PdModel.StoreFsm.step d.model op2
         ({ model := o2.st, pre := pre' },
-         { model := resStr o2.res ++ " ; " ++ dump o2.st (d.gw ++ o2.writes), fails := monitorGated d.pre ws i (directInFlight d.pend1 d.pend2) })
+         { model := d.r1 ++ " " ++ resStr o2.res ++ " ; " ++ dump o2.st (d.gw ++ o2.writes),
+           fails := monitorGated d.pre ws i (directInFlight d.pend1 d.pend2) })
     | none, none =>
       -- the implementation is ahead of the model (they disagreed before): keep judging what it reports
       ({ d with pre := pre' }, { model := "bad-op", fails := monitorGated d.pre ws i })
